@@ -565,6 +565,26 @@ def r17_10(ctx):
         ctx.ok("R17.10", where(fi), "REGEXP matches names case-sensitively (INBOX is folded on the pattern side)")
 
 
+def r17_12(ctx):
+    """\\HasChildren / \\HasNoChildren are recomputed in do_list against *every* mailbox the database knows, because what
+    Mailbox.list() returned is only what matched the pattern and the selection options (SUBSCRIBED, SPECIAL-USE, `%`).  The
+    query that collects those names is reached on every path to the statements that set the attribute - a shortcut that skips
+    it for some argument combination reports a mailbox whose children were filtered out as \\HasNoChildren."""
+    p = ctx.p
+    fi = p.func("client.Authenticated.do_list")
+    g = ctx.cfg(fi)
+    q = {n.id for n in g.nodes if n.ast is not None and n.kind in ("iter", "stmt") and "select name from mailboxes" in norm(n.ast, 400).lower()}
+    setters = [n.id for n in g.nodes if n.ast is not None and n.kind == "stmt" and "HasChildren" in norm(n.ast, 300) and any(call_name(c) in ("add", "discard", "remove") for c in calls_in(n.ast))]
+    ctx.require(q, "do_list: query of all mailbox names not found")
+    ctx.require(setters, "do_list: statements that set the children attributes not found")
+    w = flow.escapes_without(g, g.entry, lambda n: n in q, setters)
+    ctx.paths_explored += 1
+    if w is None:
+        ctx.ok("R17.12", where(fi), "the children flags are recomputed against all mailbox names of the database on every path")
+    else:
+        ctx.bad("R17.12", fi.module, fi.qual, "SELECT name FROM mailboxes ... skipped on some path", "do_list can set the children attributes without having collected all mailbox names from the database: under a selection option or pattern that filters the children out of the results (LIST (SUBSCRIBED) with pattern *) a mailbox with children is reported as having none", g.nodes[w[-1]].line, flow.fmt_path(g, w))
+
+
 def run(ctx):
     ctx.do(r17_8)
     ctx.do(r17_9)
@@ -577,4 +597,5 @@ def run(ctx):
     ctx.do(r17_7)
     from . import c05
     ctx.do(c05.r5_5)
+    ctx.do(r17_12)
     ctx.note("R17.3 validate-before-mutate for create/delete/rename is decided by C05 R5.5")
